@@ -19,7 +19,7 @@ const ruleC19a = "clone families: rapid-generated operation lists (AppendData / 
 const ruleC19b = "publishing: one generated message is put 1..6 times through FiniteReplayer / ValidReplayer (both ID modes) and published through a Joe using each of them; the caller's message must encode identically before and after every Put/Publish (ID unset in automatic mode), returned and delivered messages must carry IDs 0,1,2,... and the original payload. Non-trivial: automatic IDs and at least 2 publications. Distinct: FNV-64 of the JSON of the case."
 
 type CloneOp struct {
-	Kind   string    `json:"kind"` // data | comment | id | type | retry | clone
+	Kind   string    `json:"kind"` // data | comment | id | type | retry | clone | unmarshal
 	Member int       `json:"member"`
 	Texts  []stats.B `json:"texts,omitempty"`
 	Value  stats.B   `json:"value,omitempty"`
@@ -44,8 +44,11 @@ func genC19(t *rapid.T) C19Case {
 			op.Kind = "id"
 		case k < 69:
 			op.Kind = "type"
-		case k < 75:
+		case k < 73:
 			op.Kind = "retry"
+		case k < 80:
+			op.Kind = "unmarshal"
+			op.Value = stats.B(stats.From(t, unmarshalTexts, "utext"))
 		default:
 			op.Kind = "clone"
 		}
@@ -63,6 +66,32 @@ func genC19(t *rapid.T) C19Case {
 		c.Ops = append(c.Ops, op)
 	}
 	return c
+}
+
+// wire texts for the "unmarshal" operation (UnmarshalText resets the receiver and sets its
+// fields and lines from the text) with the model each of them produces
+var unmarshalTexts = []string{"data: u1\ndata: u2\n\n", "id: 9\nevent: t\ndata: z\n\n", ": c\n\n", "data: a\n: c\ndata: b\ndata: c\ndata: d\n\n", "retry: 250\ndata: r\n\n"}
+
+func modelOfText(text string) oracle.Msg {
+	var m oracle.Msg
+	for _, line := range oracle.SplitLines(text) {
+		switch {
+		case line == "":
+			return m
+		case strings.HasPrefix(line, "data: "):
+			m.Chunks = append(m.Chunks, oracle.Chunk{Text: line[6:]})
+		case strings.HasPrefix(line, ": "):
+			m.Chunks = append(m.Chunks, oracle.Chunk{Comment: true, Text: line[2:]})
+		case strings.HasPrefix(line, "id: "):
+			m.IDSet, m.ID = true, line[4:]
+		case strings.HasPrefix(line, "event: "):
+			m.TypeSet, m.Type = true, line[7:]
+		case strings.HasPrefix(line, "retry: "):
+			n, _ := strconv.Atoi(line[7:])
+			m.Retry = time.Duration(n) * time.Millisecond
+		}
+	}
+	return m
 }
 
 func checkC19(t *testing.T, c C19Case) *stats.Verdict {
@@ -104,6 +133,18 @@ func checkC19(t *testing.T, c C19Case) *stats.Verdict {
 		case "retry":
 			m.Retry = time.Duration(op.Retry)
 			mod.Retry = time.Duration(op.Retry)
+		case "unmarshal":
+			if err := m.UnmarshalText([]byte(op.Value)); err != nil {
+				return v.Failf("", "op %d: UnmarshalText(%q) failed: %v", i, op.Value, err)
+			}
+			*mod = modelOfText(string(op.Value))
+			appendedAfter[k]++
+			v.Class("unmarshal-into-family-member")
+			for _, p := range clones {
+				if p.src == k || p.dst == k {
+					nontrivial = true
+				}
+			}
 		case "clone":
 			cl := m.Clone()
 			cm := *mod
@@ -138,6 +179,7 @@ type C19PubCase struct {
 	Auto     bool    `json:"auto"`
 	Times    int     `json:"times"`
 	ViaJoe   bool    `json:"viajoe"`
+	Drain    int     `json:"drain,omitempty"` // valid replayer, direct puts: after this many puts the clock jumps beyond the TTL and GC() runs
 }
 
 func genC19Pub(t *rapid.T) C19PubCase {
@@ -146,6 +188,9 @@ func genC19Pub(t *rapid.T) C19PubCase {
 	c.Auto = stats.Pct(t, "auto") < 70
 	c.Times = 1 + stats.Pick(t, 8, "times")
 	c.ViaJoe = rapid.Bool().Draw(t, "viajoe")
+	if c.Replayer == "valid" && !c.ViaJoe && c.Times >= 2 && rapid.Bool().Draw(t, "drained") {
+		c.Drain = 1 + stats.Pick(t, c.Times-1, "drain")
+	}
 	return c
 }
 
@@ -194,10 +239,17 @@ func checkC19Pub(t *testing.T, c C19PubCase) *stats.Verdict {
 	}
 	var rep sse.Replayer
 	var err error
+	var valid *sse.ValidReplayer
+	clock := time.Unix(1_700_000_000, 0)
 	if c.Replayer == "finite" {
 		rep, err = sse.NewFiniteReplayer(3, c.Auto)
 	} else {
-		rep, err = sse.NewValidReplayer(time.Hour, c.Auto)
+		vr, verr := sse.NewValidReplayer(time.Hour, c.Auto)
+		rep, err = vr, verr
+		if verr == nil {
+			vr.Now = func() time.Time { return clock }
+			valid = vr
+		}
 	}
 	if err != nil {
 		return v.Failf("constructor", "replayer: %v", err)
@@ -237,6 +289,12 @@ func checkC19Pub(t *testing.T, c C19PubCase) *stats.Verdict {
 			handedOut = append(handedOut, got)
 			if f := recheck(fmt.Sprintf("after Put #%d", i)); f != "" {
 				return v.Failf("", "%s", f)
+			}
+			if c.Drain > 0 && i+1 == c.Drain && valid != nil {
+				// a quiet period longer than the TTL: everything expires and is collected
+				clock = clock.Add(2 * time.Hour)
+				valid.GC()
+				v.Class("valid-replayer-drained-between-publications")
 			}
 		}
 	} else {
